@@ -150,3 +150,23 @@ def connected_conn(loop=None, keepalive=20.0, on_stop=None, register_internal=Tr
         conn._register_internal_message_handlers()
     conn._set_connection_state(ConnectionState.CONNECTED)
     return conn, helper, stops
+
+
+class Sub:
+    """callable subscriber with a fixed small hash, so that a `set` of them iterates in index order
+    both under CrossHair and natively (plain functions hash by address, which differs per run)."""
+
+    __slots__ = ("i", "fn")
+
+    def __init__(self, i: int, fn):
+        self.i = i
+        self.fn = fn
+
+    def __call__(self, msg):
+        return self.fn(msg)
+
+    def __hash__(self):
+        return self.i
+
+    def __eq__(self, other):
+        return self is other
